@@ -169,7 +169,7 @@ func checkNewRR(c newRRCase) error {
 			return fmt.Errorf("NewRR error carries no position: %q", r.err)
 		}
 	}
-	bound := uint64(allocK0) + uint64(allocC)*uint64(len(c.Text)) + 2*(uint64(allocR0)+uint64(allocC)*uint64(min(len(c.Text), 4096)))
+	bound := uint64(allocK0) + uint64(allocC)*uint64(len(c.Text)) + 2*(uint64(allocR0)+uint64(allocRL)*uint64(min(len(c.Text), 4096)))
 	if r.alloc > bound {
 		return fmt.Errorf("NewRR allocated %d octets for %d octets of input (bound %d)", r.alloc, len(c.Text), bound)
 	}
